@@ -1,6 +1,7 @@
 package props
 
 import (
+	"encoding/csv"
 	"encoding/json"
 	"fmt"
 	"os"
@@ -521,4 +522,40 @@ func c02Typed(r *core.Run) {
 		r.Violation(x.sig, x.what, map[string]interface{}{"value": jobs[k].v, "format": formats[jobs[k].f].name})
 	}
 	r.Coverage["typed_value_round_trips"] = len(jobs)
+
+	// column names are cells of the header record: a name the format can spell reads back as the same name
+	names := []string{"a b", "a,b", "a\"b", " a", "a ", "1", "\u00e9", "a\tb", "select", "a.b", "x:y", "a`b", "-", "a\\b"}
+	hreported := map[string]bool{}
+	cnt := 0
+	for _, f := range []struct{ name, ext string }{{"CSV", "csv"}, {"TSV", "tsv"}} {
+		for _, nm := range names {
+			if f.name == "TSV" && strings.Contains(nm, "\t") {
+				continue
+			}
+			cnt++
+			dir := r.Dir(fmt.Sprintf("hdr%d", cnt))
+			file := "h." + f.ext
+			q := "`" + strings.ReplaceAll(strings.ReplaceAll(nm, "\\", "\\\\"), "`", "``") + "`"
+			w := sut.RunBin(sut.BinOpts{Csvq: r.Csvq, Dir: dir, Args: []string{"--format", f.name, "--out", file, "--quiet", "SELECT 1 AS " + q + ", 2 AS other"}, Timeout: 30 * time.Second})
+			if w.Exit != 0 {
+				_ = os.RemoveAll(dir)
+				continue // a name csvq refuses to write is not a round-trip case
+			}
+			// read back and shown as CSV (JSON output would interpret the names as paths), header parsed by encoding/csv
+			rd := sut.RunBin(sut.BinOpts{Csvq: r.Csvq, Dir: dir, Args: []string{"--format", "CSV", "--quiet", "SELECT * FROM `" + file + "`"}, Timeout: 30 * time.Second})
+			got := ""
+			if recs, err := csv.NewReader(strings.NewReader(rd.Stdout)).ReadAll(); err == nil && len(recs) >= 1 && len(recs[0]) == 2 {
+				got = recs[0][0]
+			}
+			_ = os.RemoveAll(dir)
+			if rd.Exit != 0 || got != nm {
+				sig := "header:" + f.name + ":name-changed"
+				if !hreported[sig] {
+					hreported[sig] = true
+					r.Violation(sig, fmt.Sprintf("column name %q written as %s reads back as %q (exit %d %s)", nm, f.name, got, rd.Exit, firstLine(rd.Stderr)), map[string]interface{}{"name": nm, "format": f.name})
+				}
+			}
+		}
+	}
+	r.Coverage["header_name_round_trips"] = cnt
 }
